@@ -166,6 +166,14 @@ def process_fuzz(ctx, rep, streams):
                 data = bytes(r.getrandbits(8) for _ in range(r.randint(0, 400)))
                 kind = 'random-bytes'
             cases.append((k, kind, data))
+        # bytes that some format would recognise at the start of a file (compression and archive magic numbers, byte order
+        # marks, NUL): still only bytes fed as a log - alone, before a log, and before a cut-off log
+        sample = (streams[0] if streams else '[1.000]  -> wl_display@1.get_registry(new id wl_registry@2)\n').encode('utf-8', 'surrogateescape')
+        import gzip as _gz
+        MAGIC = [b'\x1f\x8b', b'\x1f\x8b\x08\x00', b'BZh91AY', b'\xfd7zXZ\x00', b'PK\x03\x04', b'\x28\xb5\x2f\xfd', b'\xef\xbb\xbf', b'\xff\xfe', b'\xfe\xff',
+                 b'\x00', b'\x7fELF', b'#!/bin/sh\n', _gz.compress(sample)[:max(12, len(_gz.compress(sample)) // 2)], _gz.compress(sample) + b'trailing']
+        for j, mg in enumerate(MAGIC):
+            cases.append((len(streams) + j, 'magic-number', mg + (b'' if j % 3 == 0 else sample if j % 3 == 1 else sample[:len(sample) // 2])))
 
         def one(case):
             k, kind, data = case
